@@ -176,7 +176,7 @@ def generate(rng, tier):
            {"t": 0.03, "op": "browse", "h": "V", "id": "vb", "types": [VT, CT]},
            {"t": 0.04, "op": "browse", "h": "H", "id": "hb", "types": [VT]}]
     t = 1.2
-    n = rng.choice([5, 10, 20, 40, 60])
+    n = rng.choice([5, 10, 20, 40, 60] + ([120, 250] if tier == "thorough" else []))
     t_stream0 = t
     lookup_at = t + rng.random() * 2.0
     ops.append({"t": round(lookup_at, 6), "op": "lookup", "h": "V", "type": VT, "name": "Nobody._http._tcp.local.",
